@@ -1,0 +1,100 @@
+//go:build verif
+
+// Contracts of this package for the govc verification-condition generator (/verif).
+// Comment-only file: it adds no declarations and is not even parsed without the `verif` tag.
+
+package adapter
+
+// ---------------------------------------------------------------------------------------------
+// C08: a packet is addressed to a session iff (it names no room, or one of the session's rooms) and it excludes
+// none of the session's rooms.
+// anyfrom(rooms, s, m): some room at a position >= m is a member of set s (a forward scan)
+//@ define anyfrom(rooms []Room, s any, m int) bool = m >= len(rooms) ? false : ((m >= 0 && smem(s, rooms[m])) || anyfrom(rooms, s, m + 1))
+//@ define inany(rooms []Room, s any) bool = anyfrom(rooms, s, 0)
+//@ define addressed(rooms []Room, opts *BroadcastOptions) bool = (scard(opts.Rooms) == 0 || inany(rooms, opts.Rooms)) && !inany(rooms, opts.Except)
+
+//@ func shouldIncludePacket
+//@   requires opts != nil && opts.Rooms != nil && opts.Except != nil
+//@   ensures result == addressed(sessionRooms, opts) [C08.include]
+//@   loop 0 invariant !included && rangeindex >= -1 && inany(sessionRooms, opts.Rooms) == anyfrom(sessionRooms, opts.Rooms, rangeindex + 1) [C08.include.inv.rooms]
+//@   loop 1 invariant notExcluded && rangeindex >= -1 && inany(sessionRooms, opts.Except) == anyfrom(sessionRooms, opts.Except, rangeindex + 1) [C08.include.inv.except]
+
+// "expired" is defined by the property's window: now > disconnectedAt + window (sessions), now > emittedAt + window (packets)
+//@ func (*sessionWithTimestamp).hasExpired
+//@   modifies gnow()
+//@   ensures gnow() >= old(gnow()) && result == (gnow() > tns(s.DisconnectedAt) + maxDisconnectDuration) [C08.expired.session]
+
+//@ func (*PersistedPacket).HasExpired
+//@   modifies gnow()
+//@   ensures gnow() >= old(gnow()) && result == (gnow() > tns(p.EmittedAt) + maxDisconnectDuration) [C08.expired.def]
+
+// mkeep(p, rooms, lo, j): how many of the logged packets at positions lo..j-1 are addressed to the session.
+//@ define mkeep(p []*PersistedPacket, rooms []Room, lo int, j int) int = j <= lo ? 0 : mkeep(p, rooms, lo, j - 1) + (addressed(rooms, p[j-1].Opts) ? 1 : 0)
+// the log is well-formed: entries and their options exist
+//@ define logOK(a *sessionAwareAdapter) bool = (forall j int :: {a.packets[j]} 0 <= j && j < len(a.packets) ==> a.packets[j] != nil) && (forall j int :: 0 <= j && j < len(a.packets) ==> a.packets[j].Opts != nil && a.packets[j].Opts.Rooms != nil && a.packets[j].Opts.Except != nil)
+
+// RestoreSession: unknown or expired session, or unknown offset -> (nil, false), an expired session is forgotten.
+// Otherwise the persisted id/rooms and EXACTLY the logged packets after the offset that are addressed to the
+// session: all of them, in log order, none twice (count-function characterisation), as a copy.
+//@ func (*sessionAwareAdapter).RestoreSession
+//@   requires a.sessions != nil && logOK(a)
+//@   requires forall q PrivateSessionID :: (q in a.sessions) ==> a.sessions[q] != nil
+//@   modifies mapof(a.sessions), gnow()
+//@   ensures !old(pid in a.sessions) ==> session == nil && !ok [C08.restore.unknown]
+//@   ensures old(pid in a.sessions) && gnow() > tns(old(a.sessions[pid]).DisconnectedAt) + a.maxDisconnectDuration ==> session == nil && !ok && !(pid in a.sessions) [C08.restore.expired]
+//@   ensures (forall i int :: 0 <= i && i < len(a.packets) ==> a.packets[i].ID != offset) ==> session == nil && !ok [C08.restore.offset]
+//@   ensures ok ==> session != nil && fresh(session) && session.SID == old(a.sessions[pid]).SessionToPersist.SID && session.PID == old(a.sessions[pid]).SessionToPersist.PID && session.Rooms == old(a.sessions[pid]).SessionToPersist.Rooms [C08.restore.copy]
+//@   ensures ok ==> forall i int :: 0 <= i && i < len(a.packets) && a.packets[i].ID == offset && (forall h int :: 0 <= h && h < i ==> a.packets[h].ID != offset) ==> len(session.MissedPackets) == mkeep(a.packets, session.Rooms, i + 1, len(a.packets)) [C08.restore.exact.len]
+//@   ensures ok ==> forall i int :: 0 <= i && i < len(a.packets) && a.packets[i].ID == offset && (forall h int :: 0 <= h && h < i ==> a.packets[h].ID != offset) ==> forall j int :: i < j && j < len(a.packets) && addressed(session.Rooms, a.packets[j].Opts) ==> session.MissedPackets[mkeep(a.packets, session.Rooms, i + 1, j)] == a.packets[j] [C08.restore.exact.kept]
+//@   ensures a.packets == old(a.packets) && unchanged(a.packets) [C08.restore.log.kept]
+//@   loop 0 invariant index == 0 - 1 && forall h int :: 0 <= h && h <= rangeindex ==> a.packets[h].ID != offset [C08.restore.inv.scan]
+//@   loop 1 invariant index + 1 <= i && i <= len(a.packets) && len(missedPackets) == mkeep(a.packets, sessionWithTS.SessionToPersist.Rooms, index + 1, i) [C08.restore.inv.count]
+//@   loop 1 invariant forall j int :: index < j && j < i && addressed(sessionWithTS.SessionToPersist.Rooms, a.packets[j].Opts) ==> missedPackets[mkeep(a.packets, sessionWithTS.SessionToPersist.Rooms, index + 1, j)] == a.packets[j] [C08.restore.inv.kept]
+//@   loop 1 invariant forall j int :: index + 1 <= j && j <= i ==> 0 <= mkeep(a.packets, sessionWithTS.SessionToPersist.Rooms, index + 1, j) && mkeep(a.packets, sessionWithTS.SessionToPersist.Rooms, index + 1, j) <= mkeep(a.packets, sessionWithTS.SessionToPersist.Rooms, index + 1, i) [C08.restore.inv.mono]
+//@   loop 1 invariant forall j int :: index < j && j < i && addressed(sessionWithTS.SessionToPersist.Rooms, a.packets[j].Opts) ==> mkeep(a.packets, sessionWithTS.SessionToPersist.Rooms, index + 1, j) < mkeep(a.packets, sessionWithTS.SessionToPersist.Rooms, index + 1, i) [C08.restore.inv.strict]
+//@   loop 1 invariant arr(missedPackets) == 0 || fresh(missedPackets) [C08.restore.inv.freshresult]
+//@   loop 1 invariant a.packets == old(a.packets) && unchanged(old(a.packets)) && 0 <= index && index < len(a.packets) && a.packets[index].ID == offset && (forall h int :: 0 <= h && h < index ==> a.packets[h].ID != offset)
+
+//@ func (*sessionAwareAdapter).PersistSession
+//@   requires a.sessions != nil && session != nil
+//@   modifies mapof(a.sessions), gnow()
+//@   ensures (session.PID in a.sessions) && a.sessions[session.PID] != nil && fresh(a.sessions[session.PID]) [C08.persist]
+//@   ensures a.sessions[session.PID].SessionToPersist == old(*session) && tns(a.sessions[session.PID].DisconnectedAt) == gnow() [C08.persist.content]
+//@   ensures forall q PrivateSessionID :: q != session.PID ==> (q in a.sessions) == old(q in a.sessions) && a.sessions[q] == old(a.sessions[q]) [C08.persist.frame]
+
+// Broadcast: an event without an ack id is logged (with its id appended to the arguments) BEFORE it is delivered,
+// so that a socket that disconnects during the delivery finds it in the log; anything else leaves the log alone.
+//@ func (*sessionAwareAdapter).Broadcast
+//@   opt safety off
+//@   requires header != nil && a.yeaster != nil
+//@   ghost delivered int = 0
+//@   callsite (*inMemoryAdapter).Broadcast skip
+//@     requires old(header.Type) == 2 && old(header.ID) == nil ==> len(a.packets) == old(len(a.packets)) + 1 && a.packets[old(len(a.packets))] != nil && a.packets[old(len(a.packets))].Opts == opts && a.packets[old(len(a.packets))].Header == header [C08.log.append]
+//@     requires old(header.Type) == 2 && old(header.ID) == nil ==> len(arg1) == old(len(v)) + 1 && unbox(arg1[old(len(v))], string) == a.packets[old(len(a.packets))].ID [C08.log.offset]
+//@     requires old(header.Type) == 2 && old(header.ID) == nil ==> forall k int :: 0 <= k && k < old(len(a.packets)) ==> a.packets[k] == old(a.packets[k]) [C08.log.keeps]
+//@     requires !(old(header.Type) == 2 && old(header.ID) == nil) ==> a.packets == old(a.packets) && arg1 == v [C08.log.only.events]
+//@     requires arg0 == header && arg2 == opts [C08.log.same]
+//@     update delivered = delivered + 1
+//@   ensures delivered == 1 [C08.log.delivered]
+
+// One clean-up pass (the critical section of the cleaner's loop; snap(...) = the state when the lock was taken):
+// only expired sessions and packets disappear, every other entry stays, the log keeps its order (what is left is a
+// suffix of it). The log is ordered by emission time (Broadcast appends with a clock that never goes back).
+//@ define logSorted(a *sessionAwareAdapter) bool = forall j int, k int :: 0 <= j && j <= k && k < len(a.packets) ==> tns(a.packets[j].EmittedAt) <= tns(a.packets[k].EmittedAt)
+//@ func (*sessionAwareAdapter).cleaner
+//@   opt safety bounds
+//@   requires a.sessions != nil
+//@   callsite Lock snapshot
+//@     assume logSorted(a) && (forall j int :: {a.packets[j]} 0 <= j && j < len(a.packets) ==> a.packets[j] != nil) && (forall q PrivateSessionID :: (q in a.sessions) ==> a.sessions[q] != nil)   // monitor invariant of a.mu
+//@   callsite Unlock
+//@     requires forall q PrivateSessionID :: (q in a.sessions) ==> (q in snap(a.sessions)) && a.sessions[q] == snap(a.sessions[q]) [C08.clean.sessions.kept]
+//@     requires forall q PrivateSessionID :: (q in snap(a.sessions)) && !(q in a.sessions) ==> gnow() > tns(snap(a.sessions[q]).DisconnectedAt) + a.maxDisconnectDuration [C08.clean.sessions.onlyexpired]
+//@     requires len(a.packets) <= len(snap(a.packets)) [C08.clean.shrinks]
+//@     requires forall k int :: 0 <= k && k < len(a.packets) ==> a.packets[k] == snapat(a.packets, len(snap(a.packets)) - len(a.packets) + k) [C08.clean.order]
+//@     requires forall j int :: 0 <= j && j < len(snap(a.packets)) - len(a.packets) ==> gnow() > tns(snap(a.packets[j].EmittedAt)) + a.maxDisconnectDuration [C08.clean.onlyexpired]
+//@   loop 1 invariant forall q PrivateSessionID :: (q in a.sessions) ==> (q in snap(a.sessions)) && a.sessions[q] == snap(a.sessions[q])
+//@   loop 1 invariant forall q PrivateSessionID :: (q in snap(a.sessions)) && !(q in a.sessions) ==> gnow() > tns(snap(a.sessions[q]).DisconnectedAt) + a.maxDisconnectDuration
+//@   loop 1 invariant a.packets == snap(a.packets) && gnow() >= snap(gnow())
+//@   loop 2 invariant a.packets == snap(a.packets) && i < len(a.packets) && gnow() >= snap(gnow())
+//@   loop 2 invariant forall q PrivateSessionID :: (q in a.sessions) ==> (q in snap(a.sessions)) && a.sessions[q] == snap(a.sessions[q])
+//@   loop 2 invariant forall q PrivateSessionID :: (q in snap(a.sessions)) && !(q in a.sessions) ==> gnow() > tns(snap(a.sessions[q]).DisconnectedAt) + a.maxDisconnectDuration
